@@ -66,13 +66,7 @@ func (n String) String() string {
 }
 
 func (n String) Number() float64 {
-	ret, err := strconv.ParseFloat(string(n), 64)
-
-	if err != nil {
-		return math.NaN()
-	}
-
-	return ret
+	return parseNumber(string(n))
 }
 
 func (n String) Bool() bool {
@@ -98,11 +92,39 @@ func (n NodeSet) Bool() bool {
 }
 
 func getStringNumber(str string) float64 {
-	ret, err := strconv.ParseFloat(str, 64)
+	return parseNumber(str)
+}
 
-	if err != nil {
+func isXmlSpace(r rune) bool {
+	return r == ' ' || r == '\t' || r == '\r' || r == '\n'
+}
+
+// parseNumber converts a string to a number as defined by the XPath number()
+// function: optional whitespace, an optional minus sign, a Number, and
+// optional whitespace.  Anything else is NaN.
+func parseNumber(str string) float64 {
+	str = strings.TrimFunc(str, isXmlSpace)
+	digits := 0
+	dots := 0
+
+	for i := 0; i < len(str); i++ {
+		c := str[i]
+
+		if c >= '0' && c <= '9' {
+			digits++
+		} else if c == '.' && dots == 0 {
+			dots++
+		} else if c != '-' || i != 0 {
+			return math.NaN()
+		}
+	}
+
+	if digits == 0 {
 		return math.NaN()
 	}
+
+	// A range error still yields the correct +/-Inf value.
+	ret, _ := strconv.ParseFloat(str, 64)
 
 	return ret
 }
